@@ -37,6 +37,8 @@ class Emitter:
         self.roots = roots
         self.overrides = set(overrides)
         self.stubs = set(stubs)
+        self.cut_re = re.compile(opts['cut']) if opts and opts.get('cut') else None
+        self.cuts = set()
         self.model_names = set(model_names)
         self.opt_model_names = set((opts or {}).get('opt_model_names', ()))
         self.opts = opts or {}
@@ -260,6 +262,9 @@ class Emitter:
             if kind == 'f':
                 f = m.funcs[n]
                 if f.blocks is None: continue
+                if self.cut_re and n not in self.roots and self.cut_re.search(n):
+                    # deliberate cut: the body is replaced by an assertion that the function is never reached (MODEL failure if it is)
+                    self.cuts.add(n); continue
                 if n in self.overrides:
                     # body replaced by a model: keep the global objects it refers to (vtables ...) reachable for the model
                     for b in f.blocks:
@@ -893,12 +898,75 @@ class Emitter:
             else:
                 fty = x['fty'] or Ty('func', rt, [a.ty for a in args], False)
                 callee = '((%s)%s)' % (self.ct(PTR(fty)), cx(Val(cal.k, PTR(fty) if cal.k != 'cexpr' else cal.ty, cal.a, cal.b, cal.c)) if cal.k != 'local' else env[cal.a])
+                cands = self.vslot_candidates(f, cal, args, rt) if cal.k == 'local' else None
+                if cands:
+                    # virtual call through vtable slot K: explicit dispatch over the functions that occupy slot K in the vtables of
+                    # the module (CBMC's own function-pointer removal would consider every function of a compatible signature)
+                    fp = env[cal.a]
+                    first = True
+                    for cn_ in cands:
+                        fd = self.m.funcs[cn_]
+                        cargs = ', '.join('(%s)%s' % (self.ct(pt), e) if pt.k == 'ptr' else e for (pt, _), e in zip(fd.params, argv))
+                        ccall = '%s(%s)' % (self.gn(cn_), cargs)
+                        if r and rt.k != 'void':
+                            ccall = '%s = %s%s' % (r, '(%s)' % self.ct(rt) if rt.k == 'ptr' else '', ccall)
+                        A('%sif ((void*)%s == (void*)&%s) { %s; }' % ('' if first else 'else ', fp, self.gn(cn_), ccall))
+                        first = False
+                    A('else { VERIF_MODEL(0, "virtual call: target is not a vtable-slot occupant of this module"); }')
+                    finish(self.may_throw(ins))
+                    return
         call = '%s(%s)' % (callee, ', '.join(argv))
         if r and rt.k != 'void':
             A('%s = %s;' % (r, call))
         else:
             A('%s;' % call)
         finish(self.may_throw(ins))
+
+    def vslot_candidates(self, f, cal, args, rt):
+        nargs = len(args)
+        """callee = load(gep(load(obj), K)) or load(load(obj)): the functions in slot K of the reachable vtables (None if the
+        pattern does not match or a candidate cannot be called with a plain cast of the arguments)"""
+        if not hasattr(self, '_defs'): self._defs = {}
+        d = self._defs.get(f.name)
+        if d is None:
+            d = {}
+            for b in f.blocks:
+                for i in b.instrs:
+                    if i.res: d[i.res] = i
+            self._defs[f.name] = d
+        def strip(v):
+            while v is not None and v.k == 'local' and v.a in d and d[v.a].op == 'bitcast': v = d[v.a].ops[0]
+            return v
+        i0 = d.get(cal.a)
+        if i0 is None or i0.op != 'load': return None
+        p = strip(i0.ops[0])
+        if p is None or p.k != 'local' or p.a not in d: return None
+        ip = d[p.a]; K = 0
+        if ip.op == 'getelementptr':
+            if len(ip.ops) != 2 or ip.ops[1].k != 'int': return None
+            K = ip.ops[1].a
+            base = strip(ip.ops[0])
+            if base is None or base.k != 'local' or base.a not in d or d[base.a].op != 'load': return None
+        elif ip.op != 'load': return None
+        out = []
+        for gname in sorted(self.rg):
+            if not gname.startswith('_ZTV'): continue
+            g = self.m.globals[gname]
+            init = g.init
+            if init is None or init.k != 'struct': continue
+            for arr in init.a:
+                if arr.k != 'array' or len(arr.a) <= 2 + K: continue
+                e = arr.a[2 + K]
+                while e is not None and e.k == 'cexpr': e = e.b[0]
+                if e is None or e.k != 'global' or e.a not in self.m.funcs: continue
+                fd = self.m.funcs[e.a]
+                if fd.vararg or len(fd.params) != nargs: continue
+                if any(self.isagg(pt) for (pt, _) in fd.params) or self.isagg(fd.ret): return None
+                # same signature apart from the static type of `this` (slot K of an unrelated class hierarchy is no candidate)
+                if fd.ret.key() != rt.key(): continue
+                if any((pt.k == 'ptr') != (a.ty.k == 'ptr') or (j > 0 and pt.key() != a.ty.key()) for j, ((pt, _), a) in enumerate(zip(fd.params, args))): continue
+                if e.a not in out: out.append(e.a)
+        return out or None
 
     def emit_intrinsic(self, name, ins, r, args, A, cx, decls, tmpc):
         if name.startswith(NOOP_INTRINSICS): return
@@ -1066,6 +1134,14 @@ class Emitter:
         for n in sorted(self.rf):
             f = m.funcs[n]
             if f.blocks is None or n in self.overrides or n.startswith('llvm.'): continue
+            if n in self.cuts:
+                nd = ''
+                if f.ret.k != 'void':
+                    if self.isagg(f.ret): self.complete(f.ret)
+                    nd = ' %s r_; return r_;' % self.ct(f.ret)
+                fbodies.append(self.proto(f) + ' { VERIF_MODEL(0, "cut function reached (stated as outside the obligation)");' + nd + ' }')
+                fbodies.append('')
+                continue
             fbodies += self.emit_function(f)
             fbodies.append('')
         for n in sorted(self.rg):
@@ -1133,6 +1209,7 @@ def main():
     ap.add_argument('--roots', required=True)
     ap.add_argument('--override', default='')
     ap.add_argument('--stub', default='')
+    ap.add_argument('--cut', default='')
     ap.add_argument('--models', default=os.path.join(os.path.dirname(os.path.abspath(__file__)), 'models', 'verif_models.h'))
     ap.add_argument('--store-hook', action='store_true')
     ap.add_argument('--list-functions', action='store_true')
@@ -1142,7 +1219,7 @@ def main():
     opt_model_names = set(re.findall(r'\bMO_(\w+)\s*\(', mtxt))
     model_names = (set(re.findall(r'\bM_(\w+)\s*\(', mtxt)) | set(re.findall(r'#ifdef USES_(\w+)', mtxt))) - opt_model_names
     em = Emitter(mod, [r for r in a.roots.split(',') if r], [o for o in a.override.split(',') if o],
-                 [s for s in a.stub.split(',') if s], model_names, {'store_hook': a.store_hook, 'opt_model_names': opt_model_names})
+                 [s for s in a.stub.split(',') if s], model_names, {'store_hook': a.store_hook, 'opt_model_names': opt_model_names, 'cut': a.cut})
     try:
         txt = em.emit()
     except IRError as e:
